@@ -96,7 +96,7 @@ func (e *Engine) verifyFunc(ct *Contract) (res *FuncVC) {
 	c := newCtx(e, e.modeOf(ct), key)
 	res.Ctx = c
 	c.rte = ct.RTE
-	c.coverCalls = !ct.NoCover
+	c.coverCalls = !ct.NoCover || forceCover()
 	lib := e.specLib(c.mode)
 	_ = lib
 	fr := c.newFrame(fn, 0)
@@ -172,7 +172,7 @@ func (e *Engine) verifyFunc(ct *Contract) (res *FuncVC) {
 	// ghost postconditions are ordinary ensures using ghost(name)
 	c.frameObligations(fr, ct, rst, penv)
 	c.exitObligations(fr, ct, rst, penv)
-	if !ct.NoCover {
+	if !ct.NoCover || forceCover() {
 		o := c.oblige("cover", "cover/return-reachable", "true", not(rst.reach), c.pos(fn.Pos()))
 		o.Cover = true
 		o.Desc = "vacuity guard: precondition satisfiable and a normal return is reachable"
